@@ -485,8 +485,18 @@ def shrink(ctx, case, key):
 
 
 def evaluate(ctx: Ctx, cases, oracle_only=False):
+    # in slices: once a dozen failing inputs are on record the rest of the family adds nothing, and a change that leaks state between
+    # calls makes every further call slower (seeded change C18-K: quadratic)
+    for at in range(0, len(cases), 250):
+        _evaluate(ctx, cases[at:at + 250], oracle_only)
+        if len(ctx.oracle_failures) >= 12 and at + 250 < len(cases):
+            ctx.notes.append(f'family stopped after {at + 250} of {len(cases)} cases: {len(ctx.oracle_failures)} failing inputs already on record')
+            break
+
+
+def _evaluate(ctx: Ctx, cases, oracle_only=False):
     res = evaluate_raw(ctx, cases, oracle_only)
-    seen_keys = set()
+    seen_keys = ctx.__dict__.setdefault('_c18_seen_keys', set())
     for c, (verdict, cdesc, im, (med, final, agg)) in zip(cases, res):
         ctx.evaluations += 1
         ctx.count('family:' + c['family'])
